@@ -190,13 +190,14 @@ REAL = [
     (b"czqv_sink\nf\n(K\x01tR.", False), (b"(czqv_sink\nf\nK\x01o.", False), (b"czqv_sink\nf\n.", False),
     (b"czqv_sink\nf\n)\x810N.", False), (b"\x8c\x08zqv_sink\x8c\x01f\x93)R0K\x01.", False), (b"(K\x01izqv_sink\nf\n.", False),
     (b"czqv_sink\nf\n(K\x01tRczqv_sink\nf\n(K\x02tR\x86.", False),
+    (b"czqv_c02_parent.sub\nf\n.", False), (b"\x8c\x12zqv_c02_parent.sub\x8c\x01f\x93)R.", False),      # dotted name whose parent package is importable
     (b"0.", None), (b"\x97.", None), (b"h\x05.", None), (b"K\x01K\x02s.", None), (b"N\x90.", None),   # analysis itself fails
 ]
 
 
 def real_gate(i: int, arm: int, kind: int) -> bool:
     """
-    pre: 0 <= i < 16 and 0 <= arm < 3 and 0 <= kind < 3
+    pre: 0 <= i < 18 and 0 <= arm < 3 and 0 <= kind < 3
     post: _
     """
     i, arm, kind = pin(i, 0, len(REAL) - 1), pin(arm, 0, 2), pin(kind, 0, 2)
@@ -204,9 +205,32 @@ def real_gate(i: int, arm: int, kind: int) -> bool:
         return _real_gate(i, arm, kind)
 
 
+_PKG = [None]
+
+
+def _ensure_pkg():
+    """an importable package that the probes name only through a sub-module: importing the parent 'to see whether it
+    exists' runs its __init__"""
+    import atexit
+    import os
+    import shutil
+    import tempfile
+    if _PKG[0] is None:
+        d = tempfile.mkdtemp(prefix="vf_c02_pkg_")
+        os.makedirs(os.path.join(d, "zqv_c02_parent"))
+        with open(os.path.join(d, "zqv_c02_parent", "__init__.py"), "w") as f:
+            f.write("LOADED = True\n")
+        sys.path.append(d)
+        _PKG[0] = d
+        atexit.register(lambda: shutil.rmtree(d, ignore_errors=True))
+
+
 def _real_gate(i, arm, kind):
     import io
     _ensure_sink()
+    _ensure_pkg()
+    for m in [m for m in sys.modules if m.startswith("zqv_c02_parent")]:
+        del sys.modules[m]
     data, benign = REAL[i]
     src = [io.BytesIO(data), data, SymStream(data, seekable=False)][kind]
     del _SINK_LOG[:], _FIND[:]
@@ -233,14 +257,16 @@ def _real_gate(i, arm, kind):
     rt.reach(not benign)
     if benign is True:
         return outcome == "ret" and v == pickle.loads(data) and type(v) is type(pickle.loads(data))
+    imported = [m for m in sys.modules if m.startswith("zqv_c02_parent")]
     if benign is False:
-        return outcome == "unsafe" and not _SINK_LOG and not _FIND
+        return outcome == "unsafe" and not _SINK_LOG and not _FIND and not imported
     # analysis cannot decompile: any exception, but nothing may have been resolved or called
-    return outcome in ("raised", "unsafe") and not _SINK_LOG and not _FIND
+    return outcome in ("raised", "unsafe") and not _SINK_LOG and not _FIND and not imported
 
 
 def lemmas(tier):
     q = tier == "quick"
+    _ensure_pkg()
     MAXLEN[0] = 2 if q else 3
     L = []
     for arm in (0, 1, 2):
